@@ -6,11 +6,12 @@ import random
 from . import core, gen, hist, jsoncheck, model, realrun, wire
 
 # theorems (fully qualified Lean names) whose proofs decide each property on the model
-THEOREMS = {p: [] for p in ['C%02d' % i for i in range(1, 19)]}
+THEOREMS = {p: [] for p in ['C%02d' % i for i in range(1, 19)] + ['TIE']}
 
 # discrepancy categories (hist.analyze) that count as a failing input of the property
 HIST_CATS = {
     'C01': ['res', 'tree', 'inv_extra'],
+    'TIE': ['impl_res', 'impl_tree', 'impl_inv', 'impl_cache'],
     'C02': ['rollback', 'exc_identity', 'tmp_leak'],
     'C03': ['foreign'],
     'C05': ['unjustified', 'rewritten'],
@@ -116,6 +117,21 @@ def check_history_property(prop, tier, rep, cases, cats, note=''):
     return nviol
 
 
+def corpus_cases(dirsize):
+    """minimised past failures and defect witnesses: always run first"""
+    import glob
+    import os
+    out = []
+    for f in sorted(glob.glob(os.path.join(core.VERIF, 'corpus', '*.json'))):
+        with open(f) as fh:
+            d = json.load(fh)
+        c = d.get('case')
+        if c and c.get('kind') == 'hist':
+            c = dict(c); c['dirsize'] = dirsize; c['seed'] = 'corpus:' + os.path.basename(f)
+            out.append(c)
+    return out
+
+
 def default_cases(tier, n_quick, n_thorough, salt, prof=gen.DEFAULT_PROFILE, dirsize=4096, **kw):
     base = core.seed() * 1000003 + salt * 7919
     n = budget(tier, n_quick, n_thorough)
@@ -128,7 +144,7 @@ def run_hist_prop(prop, tier, salt, n_quick, n_thorough, **kw):
     ds = realrun.measure_dirsize()
     if ds is None:
         raise core.HarnessError('directory sizes vary on %s; set FBH_TMP to an ext4-like file system' % realrun.SANDBOX_BASE)
-    cases = default_cases(tier, n_quick, n_thorough, salt, dirsize=ds, **kw)
+    cases = corpus_cases(ds) + default_cases(tier, n_quick, n_thorough, salt, dirsize=ds, **kw)
     check_history_property(prop, tier, rep, cases, HIST_CATS[prop])
     if not gate['ok'] and not rep.violations:
         rep.violation('proofgate', {'property': prop, 'kind': 'broken-proof-obligation',
@@ -158,7 +174,10 @@ def check_C18(tier):
     return rep.finish(gate)
 
 
-CHECKS = {'C18': check_C18, 'C01': check_C01, 'C02': check_C02, 'C03': check_C03, 'C05': check_C05, 'C12': check_C12}
+def check_TIE(tier): return run_hist_prop('TIE', tier, 99, 800, 40000)
+
+
+CHECKS = {'TIE': check_TIE, 'C18': check_C18, 'C01': check_C01, 'C02': check_C02, 'C03': check_C03, 'C05': check_C05, 'C12': check_C12}
 
 
 def replay(prop, path):
